@@ -312,7 +312,7 @@ def work_asts(job):
 
 
 # ------------------------------------------------------------------ literals
-ALPHA = ['a', '"', '\\', '\n', '\t', '{', '}', "'", '#', 'é', ' ']
+ALPHA = ['a', '"', '\\', '\n', '\t', '{', '}', "'", '#', 'é', ' ', '\U0001F600']
 NUMBERS = [('0', 0), ('1', 1), ('1.5', 1.5), ('.5', 0.5), ('5.', 5.0), ('1E3', 1000.0), ('1.5e-3', 0.0015), ('1E+3', 1000.0),
            ('1e3', 1000.0), ('12345678901', 12345678901), ('0.1', 0.1)]
 
